@@ -78,15 +78,51 @@ struct GroupCfg {
     regpos: usize,
     cap: usize,
     /// graceful-drain groups: 'c' = long drain timeout (connections wind down on the cancelled token),
-    /// 'a' = zero drain timeout (stragglers are aborted); '-' otherwise
+    /// 'a' = zero drain timeout (stragglers are aborted), 't' = 30 ms drain timeout; listener groups: 's' =
+    /// `serve_listener_with_shutdown` whose shutdown fires while the connections are being served; '-' otherwise
     mode: char,
+    /// harness-only knobs (one word on the group line, ignored by the model: the property does not depend on them)
+    off: char,           // with_offreader_limit: 'd' not called, '0' unbounded, '1', '4'
+    nerr: usize,         // on_error hooks registered (0 = the default stderr path)
+    static_accept: bool, // embedder loops: WebSocketServer::accept* (associated fns) instead of SharedWebSocketServer::accept*
+    query: u8,           // upgrade request: 0 "?client=7", 1 no query, 2 empty query "?"
+    pr: bool,            // adopt: adopt_upgraded_partially_read with the client's first frame handed over as `buffered`
+    lim: bool,           // with_limits: 1 MiB inbound frame/message limit (else default limits)
 }
 impl GroupCfg {
     fn line(&self) -> String {
-        format!("group {} {} {} {} {} {} {} {} {} {}", self.g, self.entry.name(), self.nconn, self.nctx, self.ndisc, self.reg as u8, self.cap, self.mode, self.nctx_reg, self.regpos)
+        format!(
+            "group {} {} {} {} {} {} {} {} {} {} o{}e{}s{}q{}p{}l{}",
+            self.g, self.entry.name(), self.nconn, self.nctx, self.ndisc, self.reg as u8, self.cap, self.mode, self.nctx_reg, self.regpos,
+            self.off, self.nerr, self.static_accept as u8, self.query, self.pr as u8, self.lim as u8
+        )
     }
     fn hs(&self) -> bool {
         self.nctx > 0
+    }
+    fn query_str(&self) -> &'static str {
+        match self.query {
+            0 => "?client=7",
+            1 => "",
+            _ => "?",
+        }
+    }
+    fn limits(&self) -> repe::WebSocketLimits {
+        if self.lim {
+            repe::WebSocketLimits::default().with_max_incoming_frame_size(Some(1 << 20)).with_max_incoming_message_size(Some(1 << 20))
+        } else {
+            repe::WebSocketLimits::default()
+        }
+    }
+    fn parse_opts(&mut self, w: &str) {
+        let c: Vec<char> = w.chars().collect();
+        let at = |k: char| c.iter().position(|x| *x == k).and_then(|i| c.get(i + 1)).copied();
+        self.off = at('o').unwrap_or('d');
+        self.nerr = at('e').and_then(|x| x.to_digit(10)).unwrap_or(1) as usize;
+        self.static_accept = at('s') == Some('1');
+        self.query = at('q').and_then(|x| x.to_digit(10)).unwrap_or(0) as u8;
+        self.pr = at('p') == Some('1');
+        self.lim = at('l') == Some('1');
     }
     /// user connect callbacks `u < reg_c()` run before the registry's insert
     fn reg_c(&self) -> usize {
@@ -108,12 +144,24 @@ struct Scen {
     notif: Vec<usize>,
     at: Option<usize>,
     nreq: usize,
+    /// panic payload of cpanic / hpanic: ' ' String (formatted), 's' &'static str, 'n' a non-string value
+    payload: char,
 }
+
+fn scripted_panic(payload: char, what: &str) -> ! {
+    match payload {
+        's' => panic!("scripted panic with a static str payload"),
+        'n' => std::panic::panic_any(0xC15u32),
+        _ => panic!("scripted {what} panic"),
+    }
+}
+
 impl Scen {
     fn line(&self, got: usize) -> String {
         let notif = if self.notif.is_empty() { "-".to_string() } else { self.notif.iter().map(|n| n.to_string()).collect::<Vec<_>>().join(",") };
         let at = self.at.map(|a| a.to_string()).unwrap_or("-".into());
-        format!("scen {} {} {} {} {} {} {}", self.idx, self.phase, self.cause, notif, at, self.nreq, got)
+        let suffix = if self.payload == ' ' { String::new() } else { self.payload.to_string() };
+        format!("scen {} {} {}{} {} {} {} {}", self.idx, self.phase, self.cause, suffix, notif, at, self.nreq, got)
     }
     fn hsfail(&self) -> bool {
         self.cause == "hsfail"
@@ -127,7 +175,9 @@ fn cancel_cause(cfg: &GroupCfg, cause: &str) -> bool {
 
 fn valid(entry: Entry, mode: char, phase: &str, cause: &str) -> bool {
     match cause {
-        "close" | "drop" | "proto" | "protog" | "malformed" | "malformeds" | "malformedl" => true,
+        "late" => false,
+        _ if phase == "late" => false,
+        "close" | "drop" | "proto" | "protog" | "malformed" | "malformeds" | "malformedl" | "toobig" => true,
         "hpanic" => matches!(phase, "idle" | "inline" | "parked" | "parkedfut"),
         "cpanic" => phase == "connecting",
         "cancel" => match entry {
@@ -136,7 +186,7 @@ fn valid(entry: Entry, mode: char, phase: &str, cause: &str) -> bool {
             _ => false,
         },
         "abort" => match entry {
-            Entry::Drain => mode == 'a',
+            Entry::Drain => mode == 'a' || mode == 't',
             Entry::Listener => false,
             _ => true,
         },
@@ -273,7 +323,7 @@ impl Shared {
         }
         if rec.scen.at == Some(u) && rec.scen.phase == "connecting" {
             if rec.scen.cause == "cpanic" {
-                panic!("scripted connect-callback panic");
+                scripted_panic(rec.scen.payload, "connect-callback");
             }
             let _ = rec.ev_tx.send(Evt::Held);
             rec.hold.wait(WD + WD);
@@ -327,7 +377,7 @@ fn make_router(sh: &Arc<Shared>) -> Router {
     let (s1, s2, s3, s4) = (sh.clone(), sh.clone(), sh.clone(), sh.clone());
     Router::new()
         .with_json("/echo", |v: Value| Ok(v))
-        .with_json("/panic", |_v: Value| -> Result<Value, (ErrorCode, String)> { panic!("scripted inline handler panic") })
+        .with_json("/panic", |v: Value| -> Result<Value, (ErrorCode, String)> { scripted_panic(v.get("k").and_then(|k| k.as_str()).and_then(|k| k.chars().next()).unwrap_or(' '), "inline handler") })
         .with_json_ctx("/gate", move |ctx: &CallContext, _v: Value| {
             let Some(rec) = rec_of_ctx(&s1, ctx) else { return Ok(json!("unknown-peer")) };
             let _ = rec.ev_tx.send(Evt::InlineEntered);
@@ -343,7 +393,7 @@ fn make_router(sh: &Arc<Shared>) -> Router {
             }
             *rec.inl.lock().unwrap() = Some(ctx.is_cancelled());
             if rec.scen.cause == "hpanic" {
-                panic!("scripted inline handler panic (gated)");
+                scripted_panic(rec.scen.payload, "gated inline handler");
             }
             Ok(json!("gate"))
         })
@@ -393,7 +443,19 @@ fn make_router(sh: &Arc<Shared>) -> Router {
 
 fn build_server(sh: &Arc<Shared>) -> WebSocketServer {
     let cfg = &sh.cfg;
-    let mut server = WebSocketServer::new(make_router(sh)).with_outbound_capacity(cfg.cap);
+    let mut server = WebSocketServer::new(make_router(sh));
+    if cfg.cap != 256 {
+        server = server.with_outbound_capacity(cfg.cap); // 256 = DEFAULT_OUTBOUND_CAPACITY: the builder is not called
+    }
+    server = match cfg.off {
+        '0' => server.with_offreader_limit(0),
+        '1' => server.with_offreader_limit(1),
+        '4' => server.with_offreader_limit(4),
+        _ => server,
+    };
+    if cfg.lim {
+        server = server.with_limits(cfg.limits());
+    }
     // hooks run in registration order: `regpos` user callbacks of each kind come before the registry's own
     for u in 0..cfg.reg_c() {
         let s = sh.clone();
@@ -419,12 +481,15 @@ fn build_server(sh: &Arc<Shared>) -> WebSocketServer {
         let s = sh.clone();
         server = server.on_peer_disconnect(move |id: PeerId| s.on_disconnect(id, u));
     }
-    let s = sh.clone();
-    server.on_error(move |e| {
-        if matches!(e, repe::ConnectionError::Handshake(_)) {
-            s.hs_errors.fetch_add(1, Ordering::SeqCst);
-        }
-    })
+    for _ in 0..cfg.nerr {
+        let s = sh.clone();
+        server = server.on_error(move |e| {
+            if matches!(e, repe::ConnectionError::Handshake(_)) {
+                s.hs_errors.fetch_add(1, Ordering::SeqCst);
+            }
+        });
+    }
+    server
 }
 
 // ---------------------------------------------------------------------------------------------
@@ -601,6 +666,7 @@ impl Group {
         let lock = self.establish.lock().await;
         *self.sh.establishing.lock().unwrap() = if scen.hsfail() { None } else { Some(rec.clone()) };
         let mut conn_task: Option<ConnTask> = None;
+        let mut echo_sent = false;
         let mut raw_tcp: Option<tokio::net::TcpStream> = None;
         let mut ws: Option<Ws> = None;
         match &self.ctl {
@@ -609,12 +675,30 @@ impl Group {
                 let (client_io, server_io) = tokio::io::duplex(buf);
                 let shared = shared.clone();
                 let token = ShutdownToken::new();
+                if scen.phase == "late" {
+                    // a connection served under a token that has been cancelled already
+                    token.cancel();
+                }
                 let t2 = token.clone();
                 let hs = cfg.hs();
+                let uri = format!("/repe{}", cfg.query_str());
+                let pr = cfg.pr && scen.phase != "connecting" && scen.phase != "late";
+                let (go_tx, go_rx) = tokio::sync::oneshot::channel::<()>();
                 let handle = self.server_rt.spawn(async move {
-                    let sws = shared.adopt_upgraded(server_io).await;
+                    let mut server_io = server_io;
+                    let sws = if pr {
+                        // the framework read past the upgrade request: hand the client's first frame over separately
+                        use tokio::io::AsyncReadExt;
+                        let _ = go_rx.await;
+                        let mut buffered = vec![0u8; 4096];
+                        let n = server_io.read(&mut buffered).await.unwrap_or(0);
+                        buffered.truncate(n);
+                        shared.adopt_upgraded_partially_read(server_io, buffered).await
+                    } else {
+                        shared.adopt_upgraded(server_io).await
+                    };
                     if hs {
-                        let req = repe::tokio_tungstenite::tungstenite::http::Request::builder().uri("/repe?client=7").header("authorization", "token").body(()).unwrap();
+                        let req = repe::tokio_tungstenite::tungstenite::http::Request::builder().uri(uri.as_str()).header("authorization", "token").body(()).unwrap();
                         let ctx = HandshakeContext::from_http_request(&req);
                         let _ = shared.serve_connection_with_cancel_and_handshake(sws, ctx, &t2).await;
                     } else {
@@ -623,7 +707,13 @@ impl Group {
                 });
                 conn_task = Some(ConnTask { handle, token });
                 let b: BoxIo = Box::new(client_io);
-                ws = Some(WebSocketStream::from_raw_socket(b, Role::Client, None).await);
+                let mut w: Ws = WebSocketStream::from_raw_socket(b, Role::Client, None).await;
+                if pr {
+                    w.send(request(1, "/echo", &json!(1), false)).await.map_err(|e| format!("send-early-echo {e}"))?;
+                    echo_sent = true;
+                }
+                let _ = go_tx.send(());
+                ws = Some(w);
             }
             _ => {
                 let addr = self.addr().unwrap();
@@ -678,10 +768,10 @@ impl Group {
                     }
                 }
             }
-            if matches!(cfg.entry, Entry::Listener | Entry::Drain) && scen.phase != "stall" {
+            if matches!(cfg.entry, Entry::Listener | Entry::Drain) && scen.phase != "stall" && cfg.nerr > 0 {
                 // built-in loops report the failure through on_error: wait for it (not part of C15; just a sync point)
                 let t0 = Instant::now();
-                while self.sh.hs_errors.load(Ordering::SeqCst) == before && t0.elapsed() < Duration::from_secs(5) {
+                while self.sh.hs_errors.load(Ordering::SeqCst) < before + cfg.nerr as u64 && t0.elapsed() < Duration::from_secs(5) {
                     tokio::time::sleep(Duration::from_millis(2)).await;
                 }
             }
@@ -692,7 +782,7 @@ impl Group {
         }
         if let Some(s) = raw_tcp.take() {
             let b: BoxIo = Box::new(s);
-            let url = format!("ws://{}/repe?client=7", self.addr().unwrap());
+            let url = format!("ws://{}/repe{}", self.addr().unwrap(), cfg.query_str());
             let (w, _resp) = tokio::time::timeout(WD, tokio_tungstenite::client_async(url, b)).await.map_err(|_| "ws-handshake-watchdog")?.map_err(|e| format!("ws-handshake {e}"))?;
             ws = Some(w);
         }
@@ -709,8 +799,10 @@ impl Group {
 
         // ---- bring the connection into the phase ----
         let phase = scen.phase.as_str();
-        if phase != "connecting" {
-            ws.send(request(1, "/echo", &json!(1), false)).await.map_err(|e| format!("send-echo {e}"))?;
+        if phase != "connecting" && phase != "late" {
+            if !echo_sent {
+                ws.send(request(1, "/echo", &json!(1), false)).await.map_err(|e| format!("send-echo {e}"))?;
+            }
             match read_frames(&mut ws, &mut res.wire, |c| c == "r1").await {
                 Ok(true) => {}
                 other => return Err(format!("echo-not-answered {:?}", other)),
@@ -760,7 +852,7 @@ impl Group {
             }
             _ => {}
         }
-        if self.sh.registry.is_some() && phase != "connecting" {
+        if self.sh.registry.is_some() && phase != "connecting" && phase != "late" {
             res.live = if self.sh.registry_full(id) { "p".into() } else { "a".into() };
         }
 
@@ -784,6 +876,10 @@ impl Group {
                 let _ = w.get_mut().write_all(&[0xFFu8; 24]).await;
                 let _ = w.get_mut().flush().await;
             }
+            "toobig" => {
+                // larger than the server's inbound message limit (1 MiB in `lim` groups): tungstenite refuses it
+                let _ = tokio::time::timeout(WD, ws.as_mut().unwrap().send(WsMsg::Binary(vec![0u8; 3 << 20]))).await;
+            }
             "malformed" => {
                 let _ = ws.as_mut().unwrap().send(WsMsg::Binary(vec![1, 2, 3, 4, 5, 6, 7, 8, 9, 10])).await;
             }
@@ -799,7 +895,7 @@ impl Group {
             }
             "hpanic" => {
                 if phase != "inline" {
-                    let _ = ws.as_mut().unwrap().send(request(3, "/panic", &json!(null), false)).await;
+                    let _ = ws.as_mut().unwrap().send(request(3, "/panic", &json!({ "k": scen.payload.to_string() }), false)).await;
                 }
             }
             "cpanic" => {}
@@ -887,6 +983,7 @@ fn start_group(cfg: GroupCfg, n: usize, server_rt: &tokio::runtime::Runtime) -> 
     let server = build_server(&sh);
     let (fired_tx, fired_rx) = tokio::sync::watch::channel(false);
     let mut shutdown_tx = None;
+    let mut ready_shutdown = None;
     let h = server_rt.handle().clone();
     let bind = || {
         let l = std::net::TcpListener::bind("127.0.0.1:0").expect("bind");
@@ -897,9 +994,24 @@ fn start_group(cfg: GroupCfg, n: usize, server_rt: &tokio::runtime::Runtime) -> 
     let ctl = match cfg.entry {
         Entry::Listener => {
             let (l, addr) = bind();
+            let with_shutdown = cfg.mode == 's';
+            let (tx, rx) = tokio::sync::oneshot::channel::<()>();
+            if with_shutdown {
+                // fired when every connection of the group is in its phase: the accept loop returns, the
+                // already-accepted connections are detached and must go on unaffected
+                ready_shutdown = Some(tx);
+            }
             let task = h.spawn(async move {
                 let l = tokio::net::TcpListener::from_std(l).unwrap();
-                let _ = server.serve_listener(l, "/repe").await;
+                if with_shutdown {
+                    let _ = server
+                        .serve_listener_with_shutdown(l, "/repe", async {
+                            let _ = rx.await;
+                        })
+                        .await;
+                } else {
+                    let _ = server.serve_listener(l, "/repe").await;
+                }
             });
             ServerCtl::Listener { task, addr }
         }
@@ -907,7 +1019,11 @@ fn start_group(cfg: GroupCfg, n: usize, server_rt: &tokio::runtime::Runtime) -> 
             let (l, addr) = bind();
             let (tx, rx) = tokio::sync::oneshot::channel::<()>();
             shutdown_tx = Some(tx);
-            let timeout = if cfg.mode == 'a' { Duration::ZERO } else { Duration::from_secs(60) };
+            let timeout = match cfg.mode {
+                'a' => Duration::ZERO,
+                't' => Duration::from_millis(30),
+                _ => Duration::from_secs(60),
+            };
             let task = h.spawn(async move {
                 let l = tokio::net::TcpListener::from_std(l).unwrap();
                 let _ = server
@@ -929,6 +1045,7 @@ fn start_group(cfg: GroupCfg, n: usize, server_rt: &tokio::runtime::Runtime) -> 
             let (tx, rx) = unbounded_channel::<ConnTask>();
             let with_cancel = cfg.entry == Entry::ConnCancel;
             let hs = cfg.hs();
+            let (stat, lim, limits) = (cfg.static_accept, cfg.lim, cfg.limits());
             let task = h.spawn(async move {
                 let l = tokio::net::TcpListener::from_std(l).unwrap();
                 loop {
@@ -938,14 +1055,15 @@ fn start_group(cfg: GroupCfg, n: usize, server_rt: &tokio::runtime::Runtime) -> 
                     let t2 = token.clone();
                     let handle = tokio::spawn(async move {
                         if hs {
-                            if let Ok((ws, ctx)) = shared.accept_with_handshake(stream, "/repe").await {
+                            let acc = if stat && lim { WebSocketServer::accept_with_handshake_and_limits(stream, "/repe", limits).await } else if stat { WebSocketServer::accept_with_handshake(stream, "/repe").await } else { shared.accept_with_handshake(stream, "/repe").await };
+                            if let Ok((ws, ctx)) = acc {
                                 if with_cancel {
                                     let _ = shared.serve_connection_with_cancel_and_handshake(ws, ctx, &t2).await;
                                 } else {
                                     let _ = shared.serve_connection_with_handshake(ws, ctx).await;
                                 }
                             }
-                        } else if let Ok(ws) = shared.accept(stream, "/repe").await {
+                        } else if let Ok(ws) = if stat && lim { WebSocketServer::accept_with_limits(stream, "/repe", limits).await } else if stat { WebSocketServer::accept(stream, "/repe").await } else { shared.accept(stream, "/repe").await } {
                             if with_cancel {
                                 let _ = shared.serve_connection_with_cancel(ws, &t2).await;
                             } else {
@@ -966,7 +1084,7 @@ fn start_group(cfg: GroupCfg, n: usize, server_rt: &tokio::runtime::Runtime) -> 
     Arc::new(Group {
         sh,
         ctl,
-        ready: Strike { n, arrived: Mutex::new(0), shutdown: Mutex::new(None), fired_tx: rtx, fired_rx: rrx },
+        ready: Strike { n, arrived: Mutex::new(0), shutdown: Mutex::new(ready_shutdown), fired_tx: rtx, fired_rx: rrx },
         strike: Strike { n, arrived: Mutex::new(0), shutdown: Mutex::new(shutdown_tx), fired_tx, fired_rx },
         establish: tokio::sync::Mutex::new(()),
         server_rt: h,
@@ -1002,6 +1120,12 @@ fn oracles(cfg: &GroupCfg, scen: &Scen, trace: &[String], res: &ConnResult, inl:
             }
         }
     }
+    let idxs = |c: char| -> Vec<usize> { trace.iter().filter(|i| i.starts_with(c)).filter_map(|i| i[1..].split(':').next().and_then(|x| x.parse().ok())).collect() };
+    for (kind, v) in [("connect", idxs('c')), ("disconnect", idxs('d'))] {
+        if v.windows(2).any(|w| w[0] > w[1]) {
+            out.push(("lifecycle.order.callbacks_out_of_registration_order".into(), format!("{kind} callbacks ran in the order {v:?}, not in registration order (plain connect callbacks first, then the handshake-aware ones); trace {trace:?}")));
+        }
+    }
     if scen.hsfail() {
         if !trace.is_empty() {
             out.push(("lifecycle.handshake_failure.hooks_fired".into(), format!("callbacks fired for a failed handshake: {trace:?}")));
@@ -1014,6 +1138,14 @@ fn oracles(cfg: &GroupCfg, scen: &Scen, trace: &[String], res: &ConnResult, inl:
     for (u, n) in &ccount {
         if *n > 1 {
             out.push(("lifecycle.connect.duplicate".into(), format!("connect callback {u} invoked {n} times; trace {trace:?}")));
+        }
+    }
+    // every connect callback that fires for this connection (plain ones, then the handshake-aware ones when a
+    // handshake was handed over) runs — up to and including the one that panics
+    let last = if scen.cause == "cpanic" { scen.at.map(|a| a + 1).unwrap_or(0) } else { cfg.nconn + cfg.nctx };
+    for u in 0..last {
+        if ccount.get(&u).copied().unwrap_or(0) == 0 {
+            out.push(("lifecycle.connect.missing".into(), format!("connect callback {u} was never invoked ({} plain + {} handshake-aware expected); trace {trace:?}", cfg.nconn, cfg.nctx)));
         }
     }
     for u in 0..cfg.ndisc {
@@ -1164,8 +1296,11 @@ const CAUSES: [&str; 11] = ["close", "drop", "proto", "protog", "malformed", "ma
 fn fill_scen(rng: &mut Rng, cfg: &GroupCfg, idx: String, phase: &str, cause: &str) -> Scen {
     let nuser = cfg.nconn + cfg.nctx;
     if cause == "hsfail" {
-        return Scen { idx, phase: phase.into(), cause: cause.into(), notif: vec![], at: None, nreq: 0 };
+        return Scen { idx, phase: phase.into(), cause: cause.into(), notif: vec![], at: None, nreq: 0, payload: ' ' };
     }
+    // (only while the reader is reading: a 3 MiB send to a reader that is blocked or held would never complete)
+    let cause = if cfg.lim && cause == "protog" && matches!(phase, "idle" | "parked" | "parkedfut") && rng.chance(1, 2) { "toobig" } else { cause };
+    let payload = if cause == "cpanic" || cause == "hpanic" { *rng.pick(&[' ', 's', 'n']) } else { ' ' };
     // never more notifies than the channel holds: `try_send` must not depend on the writer's progress
     let mut budget = cfg.cap.min(6);
     let notif: Vec<usize> = (0..nuser)
@@ -1177,7 +1312,7 @@ fn fill_scen(rng: &mut Rng, cfg: &GroupCfg, idx: String, phase: &str, cause: &st
         .collect();
     let at = if phase == "connecting" { Some(rng.below(nuser as u64) as usize) } else { None };
     let nreq = if phase == "queued" { 12 } else { 0 };
-    Scen { idx, phase: phase.into(), cause: cause.into(), notif, at, nreq }
+    Scen { idx, phase: phase.into(), cause: cause.into(), notif, at, nreq, payload }
 }
 
 fn random_cfg(rng: &mut Rng, g: usize, entry: Entry, mode: char, queued: bool) -> GroupCfg {
@@ -1196,8 +1331,14 @@ fn random_cfg(rng: &mut Rng, g: usize, entry: Entry, mode: char, queued: bool) -
         ndisc: rng.range(1, 3) as usize,
         reg: false,
         regpos: 0,
-        cap: if queued { 2 } else { 64 },
+        cap: if queued { 2 } else { *rng.pick(&[1usize, 3, 64, 64, 256]) },
         mode,
+        off: *rng.pick(&['d', 'd', '0', '1', '4']),
+        nerr: *rng.pick(&[0usize, 1, 1, 2]),
+        static_accept: rng.chance(1, 2),
+        query: rng.below(3) as u8,
+        pr: entry == Entry::Adopt && rng.chance(1, 2),
+        lim: rng.chance(1, 2),
     };
     cfg.reg = rng.chance(1, 2);
     // half of the registry groups: some user callbacks are registered before `with_peer_registry`
@@ -1216,7 +1357,11 @@ fn plan(rng: &mut Rng, thorough: bool) -> Vec<Plan> {
     let rounds = if thorough { 40 } else { 4 };
     for round in 0..rounds {
         for entry in Entry::all() {
-            let modes: &[char] = if entry == Entry::Drain { &['c', 'a'] } else { &['-'] };
+            let modes: &[char] = match entry {
+                Entry::Drain => &['c', 'a', 't'],
+                Entry::Listener => &['-', 's'],
+                _ => &['-'],
+            };
             for &mode in modes {
                 // every valid (phase × cause) of this entry, shuffled, cut into groups of varying size
                 let mut combos: Vec<(String, String)> = Vec::new();
@@ -1227,11 +1372,14 @@ fn plan(rng: &mut Rng, thorough: bool) -> Vec<Plan> {
                         }
                     }
                 }
+                if entry == Entry::Adopt {
+                    combos.push(("late".to_string(), "cancel".to_string()));
+                }
                 if entry != Entry::Adopt {
                     for kind in ["path", "garbage", "eof"] {
                         combos.push((kind.to_string(), "hsfail".to_string()));
                     }
-                    if entry == Entry::Drain && mode == 'a' {
+                    if entry == Entry::Drain && (mode == 'a' || mode == 't') {
                         combos.push(("stall".to_string(), "hsfail".to_string()));
                     }
                 }
@@ -1310,13 +1458,28 @@ fn parse_replay(ops: &[String]) -> Vec<AnyPlan> {
                     mode: w[8].chars().next().unwrap_or('-'),
                     nctx_reg: w[9].parse().unwrap(),
                     regpos: w.get(10).and_then(|x| x.parse().ok()).unwrap_or(0),
+                    off: 'd',
+                    nerr: 1,
+                    static_accept: false,
+                    query: 0,
+                    pr: false,
+                    lim: false,
                 };
+                let mut cfg = cfg;
+                if let Some(o) = w.get(11) {
+                    cfg.parse_opts(o);
+                }
                 plans.push(AnyPlan::Life(Plan { cfg, scens: vec![] }));
             }
             Some("scen") if w.len() >= 8 => {
                 if let Some(AnyPlan::Life(p)) = plans.last_mut() {
                     let notif = if w[4] == "-" { vec![] } else { w[4].split(',').map(|x| x.parse().unwrap_or(0)).collect() };
-                    p.scens.push(Scen { idx: w[1].into(), phase: w[2].into(), cause: w[3].into(), notif, at: w[5].parse().ok(), nreq: w[6].parse().unwrap_or(0) });
+                    let (cause, payload) = match w[3] {
+                        "cpanics" | "hpanics" => (&w[3][..6], 's'),
+                        "cpanicn" | "hpanicn" => (&w[3][..6], 'n'),
+                        c => (c, ' '),
+                    };
+                    p.scens.push(Scen { idx: w[1].into(), phase: w[2].into(), cause: cause.into(), notif, at: w[5].parse().ok(), nreq: w[6].parse().unwrap_or(0), payload });
                 }
             }
             _ => {}
@@ -1471,37 +1634,41 @@ async fn rx_wait(rx: &mut UnboundedReceiver<RxEvt>, closed: &mut BTreeMap<usize,
 async fn run_rx(plan: RxPlan, server_rt: &tokio::runtime::Runtime, out: &Mutex<Out>) {
     let (ev_tx, mut ev_rx) = unbounded_channel();
     let rx = Arc::new(Rx { reg: PeerRegistry::new(), establishing: Mutex::new(None), conn_of: Mutex::new(HashMap::new()), id_of: Mutex::new(HashMap::new()), ev: ev_tx, unknown: AtomicU64::new(0) });
-    let server = rx_server(&rx);
+    // TWO server instances feed the one registry (documented: "two WebSocketServers sharing one registry mint
+    // non-colliding ids"); connection c is served by server c % 2
     let h = server_rt.handle().clone();
-    let mut addr = None;
-    let mut shared: Option<SharedWebSocketServer> = None;
-    let mut server_task = None;
-    if plan.entry != Entry::Adopt {
-        let l = std::net::TcpListener::bind("127.0.0.1:0").expect("bind");
-        l.set_nonblocking(true).unwrap();
-        addr = Some(l.local_addr().unwrap());
-        if plan.entry == Entry::Listener {
-            server_task = Some(h.spawn(async move {
-                let l = tokio::net::TcpListener::from_std(l).unwrap();
-                let _ = server.serve_listener(l, "/repe").await;
-            }));
+    let mut addrs: Vec<std::net::SocketAddr> = Vec::new();
+    let mut shareds: Vec<SharedWebSocketServer> = Vec::new();
+    let mut server_tasks = Vec::new();
+    for _ in 0..2 {
+        let server = rx_server(&rx);
+        if plan.entry != Entry::Adopt {
+            let l = std::net::TcpListener::bind("127.0.0.1:0").expect("bind");
+            l.set_nonblocking(true).unwrap();
+            addrs.push(l.local_addr().unwrap());
+            if plan.entry == Entry::Listener {
+                server_tasks.push(h.spawn(async move {
+                    let l = tokio::net::TcpListener::from_std(l).unwrap();
+                    let _ = server.serve_listener(l, "/repe").await;
+                }));
+            } else {
+                let sh = server.into_shared();
+                server_tasks.push(h.spawn(async move {
+                    let l = tokio::net::TcpListener::from_std(l).unwrap();
+                    loop {
+                        let Ok((stream, _)) = l.accept().await else { break };
+                        let sh = sh.clone();
+                        tokio::spawn(async move {
+                            if let Ok(ws) = sh.accept(stream, "/repe").await {
+                                let _ = sh.serve_connection(ws).await;
+                            }
+                        });
+                    }
+                }));
+            }
         } else {
-            let sh = server.into_shared();
-            server_task = Some(h.spawn(async move {
-                let l = tokio::net::TcpListener::from_std(l).unwrap();
-                loop {
-                    let Ok((stream, _)) = l.accept().await else { break };
-                    let sh = sh.clone();
-                    tokio::spawn(async move {
-                        if let Ok(ws) = sh.accept(stream, "/repe").await {
-                            let _ = sh.serve_connection(ws).await;
-                        }
-                    });
-                }
-            }));
+            shareds.push(server.into_shared());
         }
-    } else {
-        shared = Some(server.into_shared());
     }
 
     let reset = format!("rx {}.r reset {}", plan.g, plan.entry.name());
@@ -1529,7 +1696,7 @@ async fn run_rx(plan: RxPlan, server_rt: &tokio::runtime::Runtime, out: &Mutex<O
             match step {
                 RxStep::Open { c, keys } => {
                     *rx.establishing.lock().unwrap() = Some((*c, keys.clone()));
-                    let ws: Ws = if let Some(sh) = &shared {
+                    let ws: Ws = if let Some(sh) = shareds.get(*c % 2) {
                         let (cio, sio) = tokio::io::duplex(64 * 1024);
                         let sh = sh.clone();
                         h.spawn(async move {
@@ -1539,9 +1706,10 @@ async fn run_rx(plan: RxPlan, server_rt: &tokio::runtime::Runtime, out: &Mutex<O
                         let b: BoxIo = Box::new(cio);
                         WebSocketStream::from_raw_socket(b, Role::Client, None).await
                     } else {
-                        let s = tokio::time::timeout(WD, tokio::net::TcpStream::connect(addr.unwrap())).await.map_err(|_| "tcp-connect-watchdog")?.map_err(|e| e.to_string())?;
+                        let addr = addrs[*c % 2];
+                        let s = tokio::time::timeout(WD, tokio::net::TcpStream::connect(addr)).await.map_err(|_| "tcp-connect-watchdog")?.map_err(|e| e.to_string())?;
                         let b: BoxIo = Box::new(s);
-                        let (w, _) = tokio::time::timeout(WD, tokio_tungstenite::client_async(format!("ws://{}/repe", addr.unwrap()), b)).await.map_err(|_| "ws-handshake-watchdog")?.map_err(|e| e.to_string())?;
+                        let (w, _) = tokio::time::timeout(WD, tokio_tungstenite::client_async(format!("ws://{}/repe", addr), b)).await.map_err(|_| "ws-handshake-watchdog")?.map_err(|e| e.to_string())?;
                         w
                     };
                     clients.insert(*c, ws);
@@ -1661,7 +1829,7 @@ async fn run_rx(plan: RxPlan, server_rt: &tokio::runtime::Runtime, out: &Mutex<O
     }
     // teardown
     drop(clients);
-    if let Some(t) = server_task {
+    for t in server_tasks {
         t.abort();
     }
     let mut o = out.lock().unwrap();
@@ -2120,10 +2288,14 @@ fn main() {
                 AnyPlan::Life(p) => {
                     {
                         let mut o = out.lock().unwrap();
-                        o.begin(&p.cfg.line());
+                        o.begin(&format!("{}\n{}", p.cfg.line(), p.scens.iter().map(|s| s.line(0)).collect::<Vec<_>>().join("\n")));
                         o.count(&format!("group.size.{}", p.scens.len()));
                     }
+                    let (t0, gl) = (Instant::now(), p.cfg.line());
                     run_group(p.cfg, p.scens, &server_rt, &out, settle).await;
+                    if std::env::var("LC_TRACE").is_ok() && t0.elapsed() > Duration::from_secs(2) {
+                        eprintln!("SLOW {:?} {}", t0.elapsed(), gl);
+                    }
                 }
                 AnyPlan::Rx(p) => run_rx(p, &server_rt, &out).await,
                 AnyPlan::Hs(p) => run_hs(p, &server_rt, &out).await,
